@@ -1,5 +1,5 @@
 (* Lemmas for property C08 in exact arithmetic (instance xq_ops of the model). *)
-From Coq Require Import List ZArith QArith Qround Lia Bool Arith Setoid.
+From Coq Require Import List ZArith QArith Qabs Qround Lia Bool Arith Setoid.
 From LMBase Require Import Res ListX.
 From LMDisc Require Import DiscModel.
 Import ListNotations.
@@ -531,17 +531,13 @@ Proof.
   inversion H; subst d; clear H. cbn [d_offsets d_offset d_factor d_data].
   unfold sum_from. cbn [n_sum0 n_add xq_ops]. rewrite !fold_add_fin.
   set (Hi := fold_left Qplus his 0). set (Lo := fold_left Qplus los 0).
-  exists los, ((Hi + - Lo) / inject_Z 255).
-  assert (Hfac : xq_div (xq_sub (XFin Hi) (XFin Lo)) (XFin (inject_Z 255))
-                 = XFin ((Hi + - Lo) / inject_Z 255)) by reflexivity.
-  cbn [n_div n_sub n_of_u8 xq_ops]. rewrite Hfac. repeat split.
+  exists los, (Qabs (Hi + - Lo) / inject_Z 255).
+  assert (Hfac : xq_div (xq_abs (xq_sub (XFin Hi) (XFin Lo))) (XFin (inject_Z 255))
+                 = XFin (Qabs (Hi + - Lo) / inject_Z 255)) by reflexivity.
+  cbn [n_div n_sub n_abs n_of_u8 xq_ops]. rewrite Hfac. repeat split.
   - (* factor >= 0 *)
-    assert (Hle : Lo <= Hi).
-    { unfold Lo, Hi. rewrite !fold_Qplus_qsum. apply Qplus_le_compat; [apply Qle_refl|].
-      apply qsum_mono. exact Hall. }
     unfold Qdiv. setoid_replace 0 with (0 * / inject_Z 255) by ring.
-    apply Qmult_le_compat_r; [|discriminate].
-    setoid_replace 0 with (Lo + - Lo) by ring. apply Qplus_le_compat; [exact Hle|apply Qle_refl].
+    apply Qmult_le_compat_r; [apply Qabs_nonneg|discriminate].
   - apply map_res_length in Hmins. rewrite map_length in Hmins. exact Hmins.
 Qed.
 
